@@ -911,6 +911,11 @@ def int_check(op, case, rec):
         return
     rec.close("same-points-as-the-float-twin", float(np.abs(Pa - Pb).max()), 1e-12, {"dtype": str(np.asarray(ri.points).dtype), "kind": kind})
     rec.require("input-keeps-its-integer-points", np.array_equal(np.asarray(mi.points), Pf.astype(int)))
+    if op == "flip":
+        # a mask that selects no cell flips no cell (e.g. the documented repair recipe flip(any(dV < 0)) applied to a valid mesh)
+        for empty in (np.zeros(mf.ncells, bool), []):
+            same = mf.flip(mask=empty)
+            rec.require("flip-with-an-empty-selection-flips-nothing", np.array_equal(np.asarray(same.cells), np.asarray(mf.cells)), {"mask": "all False" if len(empty) else "[]"})
 
 
 FAMILIES = [
